@@ -23,7 +23,8 @@ RULE = ('(a) exhaustive enumeration of all strings up to length 5 (quick) / 6 (t
         'parse(enc(x)).to_er7() == enc(x). Non-trivial = the input contains a delimiter or the escape character; distinct '
         'by (class family, delimiter set, string) - by construction for the enumerated part.')
 ASSUMPTIONS = [
-    '"already escaped" means the encoder\'s own output language: single-letter sequences <esc>[HNFSTRE(L)]<esc>',
+    '"already escaped" means a complete escape sequence of the standard: <esc>[HNFSTRE(L)]<esc>, hexadecimal <esc>Xdd..<esc>, local <esc>Z..<esc>, '
+    'character set <esc>Cxxyy<esc> / <esc>Mxxyy[zz]<esc>, formatting commands <esc>.br<esc> <esc>.sp n<esc> <esc>.in+n<esc> ...',
     'no decode-and-compare round trip is asserted (the library has no unescape function)',
     'delimiter sets are 5-6 distinct punctuation characters',
 ]
@@ -37,7 +38,9 @@ def _ok_pattern(ec, v=None):
     esc = re.escape(ec['ESCAPE'])
     letters = _letters_for(v, ec) if v else R.esc_letters(ec)
     bad = ''.join(re.escape(c) for c in S.active_chars(ec))
-    return re.compile(r'(?:%s[%s]%s|[^%s])*\Z' % (esc, letters, esc, bad), re.S)
+    if ec['ESCAPE'].isalnum() or ec['ESCAPE'] in '.+- ':
+        return re.compile(r'(?:%s[%s]%s|[^%s])*\Z' % (esc, letters, esc, bad), re.S)
+    return re.compile(r'(?:%s[%s]%s|%s%s%s|[^%s])*\Z' % (esc, letters, esc, esc, R.OTHER_SEQUENCES.pattern, esc, bad), re.S)
 
 
 def _letters_for(v, ec):
@@ -53,10 +56,19 @@ def check_string(cls, v, ec, x, pat=None, deep=True):
     except Exception as e:
         return [('escape-raises:%s' % type(e).__name__, '%s(%r).to_er7: %s' % (cls.__name__, x, e))]
     pat = pat or _ok_pattern(ec, v)
-    if pat.match(enc) is None:
+    # the regex twin is only a fast path: it is trusted when it accepts and no delimiter could hide inside a formatting /
+    # hexadecimal sequence; everything else goes through the reference tokenizer
+    risky = any(c.isalnum() or c in '.+- ' for c in S.active_chars(ec) if c != ec['ESCAPE'])
+    if risky or pat.match(enc) is None:
         toks, problems = R.tokenize_escaped(enc, ec, _letters_for(v, ec))
-        kinds = sorted(set(p[0] for p in problems)) or ['tokenizer-disagrees']
-        out.append(('escape:' + kinds[0], '%s(%r) -> %r: %s' % (cls.__name__, x, enc, problems[:3])))
+        if problems:
+            kinds = sorted(set(p[0] for p in problems))
+            out.append(('escape:' + kinds[0], '%s(%r) -> %r: %s' % (cls.__name__, x, enc, problems[:3])))
+        elif not risky:
+            out.append(('escape:tokenizer-disagrees', '%s(%r) -> %r' % (cls.__name__, x, enc)))
+    if enc != x and not out and not R.tokenize_escaped(x, ec, _letters_for(v, ec))[1]:
+        out.append(('escape:already-escaped-text-changed', '%s(%r) -> %r although the input consists of ordinary characters and complete escape sequences only' % (
+            cls.__name__, x, enc)))
     try:
         enc2 = cls(enc).to_er7(ec)
     except Exception as e:
@@ -216,7 +228,9 @@ def sampled_cases(draw, cells):
     esc = ec['ESCAPE']
     act = sorted(S.active_chars(ec))
     letters = list('HNFSTREL')
-    atoms = act + [esc] * 2 + letters + ['a', 'Z', '7', ' ', u'é'] + [esc + l + esc for l in letters] + [esc + l for l in 'FE'] + ['E' + esc]
+    others = ['X0D0A', 'X41', 'X4', 'Z12', 'Zab', 'C2842', 'C284', 'M2842AB', 'M2842', '.br', '.sp 2', '.in+4', '.ti-1', '.fi', '.xx', 'Xfile']
+    atoms = act + [esc] * 2 + letters + ['a', 'Z', '7', ' ', u'é'] + [esc + l + esc for l in letters] + [esc + l for l in 'FE'] + ['E' + esc] + \
+        [esc + o + esc for o in others] + ['X', '.', 'b', 'r', '0', 'D']
     if draw(st.integers(0, 3)) == 0:
         atoms = [a for a in atoms if esc not in a]        # escape-free text: the cases that may carry highlight ranges
     parts = draw(st.lists(st.sampled_from(atoms), min_size=1, max_size=20))
